@@ -289,6 +289,13 @@ class ndarray:
                 raise IndexError(f"index {j} is out of bounds for axis with size {n}")
             return [range(n)[j]], False
 
+        if isinstance(ri, (list, ndarray)) and isinstance(ci, (list, ndarray)):
+            # paired ("fancy") index arrays: element i is self[ri[i], ci[i]]
+            rl = ri.tolist() if isinstance(ri, ndarray) else list(ri)
+            cl = ci.tolist() if isinstance(ci, ndarray) else list(ci)
+            if len(rl) != len(cl):
+                raise IndexError("shape mismatch: indexing arrays could not be broadcast together")
+            return ndarray([self._f[range(R)[operator.index(a)] * C + range(C)[operator.index(b)]] for a, b in zip(rl, cl)], (len(rl),), sw=self.sw)
         rows, rkeep = expand(ri, R)
         cols, ckeep = expand(ci, C)
         vals = [self._f[r * C + c] for r in rows for c in cols]
@@ -319,6 +326,17 @@ class ndarray:
         if len(idx) == 1:
             idx = (idx[0], slice(None))
         r, c = idx
+        if isinstance(r, (list, ndarray)) and isinstance(c, (list, ndarray)):
+            rl = r.tolist() if isinstance(r, ndarray) else list(r)
+            cl = c.tolist() if isinstance(c, ndarray) else list(c)
+            vals = value._f if isinstance(value, ndarray) else (list(value) if isinstance(value, (list, tuple)) else [value] * len(rl))
+            if len(vals) == 1:
+                vals = vals * len(rl)
+            if not (len(rl) == len(cl) == len(vals)):
+                raise ValueError("shape mismatch: value array could not be broadcast to indexing result")
+            for a, b, v in zip(rl, cl, vals):   # numpy semantics: a repeated index keeps the last value written
+                self._f[range(R)[operator.index(a)] * C + range(C)[operator.index(b)]] = self._coerce(v)
+            return
         if isinstance(r, slice) or isinstance(c, slice):
             rows = list(range(R))[r] if isinstance(r, slice) else [range(R)[operator.index(r)]]
             cols = list(range(C))[c] if isinstance(c, slice) else [range(C)[operator.index(c)]]
@@ -740,6 +758,89 @@ def floor(x):
 
 def _tofloat(r):
     return r + 0.0
+
+
+def transpose(a):
+    return array(a).T
+
+
+def arange(*args):
+    return array(list(range(*[operator.index(x) for x in args])))
+
+
+def flatnonzero(a):
+    a = array(a).flatten()
+    return array([i for i, e in enumerate(a._f) if bool(e)])   # a symbolic element is decided by the engine (fork)
+
+
+def count_nonzero(a):
+    a = array(a).flatten()
+    tot = 0
+    for e in a._f:
+        tot = tot + (e if _is_sym(e) and not hasattr(e, "sym_ite") else (e.sym_ite(1, 0) if _is_sym(e) else (1 if e else 0)))
+    return tot
+
+
+def where(cond, a=None, b=None):
+    cond = array(cond)
+    if a is None:
+        return (flatnonzero(cond),)
+    A, B = array(a), array(b)
+    n = len(cond._f)
+    fa = A._f if A.size == n else A._f * n
+    fb = B._f if B.size == n else B._f * n
+    out = []
+    for c, x, y in zip(cond._f, fa, fb):
+        out.append(c.sym_ite(x, y) if _is_sym(c) else (x if c else y))
+    return ndarray(out, cond.shape)
+
+
+def maximum(a, b):
+    A, B = array(a), array(b)
+    return where(A._ew(B, operator.ge), A if A.size >= B.size else full(B.shape, A._f[0]), B if B.size >= A.size else full(A.shape, B._f[0]))
+
+
+def minimum(a, b):
+    A, B = array(a), array(b)
+    return where(A._ew(B, operator.le), A if A.size >= B.size else full(B.shape, A._f[0]), B if B.size >= A.size else full(A.shape, B._f[0]))
+
+
+def clip(a, lo, hi):
+    return minimum(maximum(a, lo), hi)
+
+
+def absolute(a):
+    if isinstance(a, (ndarray, list, tuple)):
+        a = array(a)
+        return ndarray([abs(e) for e in a._f], a.shape)
+    return abs(a)
+
+
+def cumsum(a):
+    a = array(a).flatten()
+    out, tot = [], 0
+    for e in a._f:
+        tot = tot + e
+        out.append(tot)
+    return ndarray(out, (len(out),))
+
+
+def concatenate(seq, axis=0):
+    parts = [array(x).flatten() for x in seq]
+    flat = [e for p in parts for e in p._f]
+    return ndarray(flat, (len(flat),))
+
+
+def logical_and(a, b):
+    return array(a)._ew(b, operator.and_)
+
+
+def logical_or(a, b):
+    return array(a)._ew(b, operator.or_)
+
+
+def logical_not(a):
+    return ~array(a)
 
 
 def unique(a):
